@@ -55,6 +55,10 @@ def times(k, order, micro):
     ts = []
     for i in range(k):
         t = base + dt.timedelta(seconds=i * 37)
+        if micro == 'same-second':
+            # distinct timestamps inside one second (the displayed precision)
+            ts.append(base.replace(microsecond=1000 * (i + 1)))
+            continue
         us = {'zero': 0, 'nonzero': 1000 + i, 'mixed': 0 if i % 2 == 0 else 250000}[micro]
         ts.append(t.replace(microsecond=us))
     return ts if order == 'chrono' else ts[::-1]
@@ -269,10 +273,10 @@ def main():
         for states in hists:
             k = len(states)
             for order in (('chrono',) if k == 1 else ('chrono', 'reverse')):
-                for micro in ('zero', 'nonzero', 'mixed'):
-                    if t == 'quick' and k == 3 and (micro == 'nonzero' or kind == 'enc' and order == 'reverse'):
+                for micro in ('zero', 'nonzero', 'mixed', 'same-second'):
+                    if t == 'quick' and k == 3 and (micro in ('nonzero', 'same-second') or kind == 'enc' and order == 'reverse'):
                         continue
-                    listing = (k <= 2 and micro == 'mixed') if t == 'quick' else (k <= 2 or micro == 'mixed')
+                    listing = (k <= 2 and micro in ('mixed', 'same-second')) if t == 'quick' else (k <= 2 or micro in ('mixed', 'same-second'))
                     cases.append((kind, states, order, micro, listing))
     n = 0
     for k, vs in common.pmap(run_history, common.shuffled(cases, 'c15'), ordered=False, chunksize=2):
